@@ -271,6 +271,33 @@ def environment_causes(R, dud):
             viol.append("the retried `dud commit` after %s was repaired exits %d: %s" % (cause, p2.returncode, p2.stderr.decode(errors="replace")[-160:]))
         elif recorded(root) != want:
             viol.append("the retried `dud commit` after %s records %s, a commit that never failed records %s" % (cause, recorded(root), want))
+    # nobody reads the error output (`dud commit 2>&1 >/dev/null | head -n0`, a log collector that went away): stderr is a pipe without a
+    # reader; the commit fails for an ordinary reason (an output is missing / a FIFO in the directory); whatever kills or ends the
+    # process, the project is unlocked afterwards and the retry works
+    for cause in ("missing-output", "fifo-entry", "missing-output-targeted"):
+        root, q = project("deadpipe-" + cause)
+        if cause.startswith("missing-output"):
+            os.unlink(os.path.join(root, "one.bin"))
+        else:
+            os.mkfifo(os.path.join(root, "data", "sub", "zz.pipe"))
+        rfd, wfd = os.pipe()
+        os.close(rfd)
+        p = subprocess.run([dud, "commit"] + (["s.yaml"] if cause.endswith("targeted") else []), cwd=root, env=env, stdout=subprocess.DEVNULL, stderr=wfd)
+        os.close(wfd)
+        R.count("env-deadpipe-" + cause, True)
+        if p.returncode == 0:
+            viol.append("`dud commit` exited 0 although %s" % cause)
+        if os.path.exists(os.path.join(root, ".dud", "lock")):
+            viol.append("after the failed `dud commit` (%s) whose error output nobody reads (exit status %d) the project is still locked" % (cause, p.returncode))
+        if cause.startswith("missing-output"):
+            open(os.path.join(root, "one.bin"), "wb").write(b"one")
+        else:
+            os.unlink(os.path.join(root, "data", "sub", "zz.pipe"))
+        p2 = subprocess.run([dud, "commit"], **q)
+        if p2.returncode != 0:
+            viol.append("the retried `dud commit` after %s (dead error pipe) exits %d: %s" % (cause, p2.returncode, p2.stderr.decode(errors="replace")[-160:]))
+        elif recorded(root) != want:
+            viol.append("the retried `dud commit` after %s (dead error pipe) records %s, a commit that never failed records %s" % (cause, recorded(root), want))
     shutil.rmtree(base, ignore_errors=True)
     if viol:
         R.violation(dict(kind="property-violated-on-implementation", scenario="commit failing for a cause in the environment, then retried", violations=viol[:6]))
